@@ -96,6 +96,8 @@ pub open spec fn order_ok(cols: Seq<SortCol>, rows: Seq<Row>, schema: TableSchem
 fn any_direction_differs(cols: &[SortCol], first: &OrderDirection) -> (r: bool) ensures r == exists|i: int| 0 <= i < cols@.len() && (#[trigger] cols@[i]).1 != *first { unimplemented!() }
 // rows.iter().any(|row| matches!(row.values.get(c), Some(SqlValue::Null) | None))
 #[verifier::external_body]
+fn null_at(row: &Row, c: usize) -> (r: bool) ensures r == row.is_null_at(c) { unimplemented!() }
+#[verifier::external_body]
 fn any_null_at(rows: &[Row], c: usize) -> (r: bool) ensures r == exists|k: int| 0 <= k < rows@.len() && (#[trigger] rows@[k]).is_null_at(c) { unimplemented!() }
 #[verifier::external_body] fn dir_is_desc(d: &OrderDirection) -> (r: bool) ensures r == (*d is Desc) { unimplemented!() }
 
@@ -142,7 +144,10 @@ ITEMS = {
                   ('re', r'cols\.iter\(\)\.any\(\|\(_, direction\)\| direction != first_direction\)', 'any_direction_differs(cols, first_direction)', 1),
                   ('refn', r'\*first_direction == vibesql_ast::OrderDirection::(Desc|Asc)', lambda m: ('' if m.group(1) == 'Desc' else '!') + 'dir_is_desc(first_direction)', 1),
                   ('re', r'for \(column_name, _\) in cols \{', 'let mut ci__: usize = 0; while ci__ < cols.len() { let column_name = &cols[ci__].0; ci__ = ci__ + 1;', 1),
-                  ('re', r'(?s)rows\.iter\(\)\.any\(\|row\| matches!\(row\.values\.get\(column_index\), Some\(vibesql_types::SqlValue::Null\) \| None\)\)', 'any_null_at(rows, column_index)', 1)],
+                  ('re', r'(?s)rows\.iter\(\)\.any\(\|row\| matches!\(row\.values\.get\(column_index\), Some\(vibesql_types::SqlValue::Null\) \| None\)\)', 'any_null_at(rows, column_index)', None),
+                  # idioms (present or not): the NULL test on ONE row; `let Some(x) = rows.first() else { return V; };` as the match it abbreviates
+                  ('re', r'matches!\((\w+)\.values\.get\(column_index\), Some\(vibesql_types::SqlValue::Null\) \| None\)', r'null_at(\1, column_index)', None),
+                  ('re', r'(?s)let Some\((\w+)\) = rows\.first\(\) else \{\s*return (\w+);\s*\};', r'if rows.len() == 0 { return \2; } let \1 = &rows[0];', None)],
         loops={0: '''
         invariant
             ci__ <= cols@.len(), cols@.len() > 0, !(cols@[0].1 is Desc),
@@ -199,6 +204,6 @@ TRUSTED = [
     'R6 (fragment kind tail): the statements of execute_index_scan from "// Determine if this is a multi-column index" to the end are lifted; its parameters are the locals the head builds (unit I-decide: index_predicate, need_where_filter, sorted_columns)',
     'external_body, each an UNINTERPRETED DETERMINISTIC function of its arguments: IndexData::range_scan (unit I-scan), multi_lookup / prefix_multi_lookup (unit I-multi), all_positions (values().flatten().collect()), sort_unstable (Vec::sort_unstable), fetch_rows (table.scan() + iter().filter_map(|idx| all_rows.get(*idx)) - spec fetch: rows at the positions, out-of-table positions skipped), refilter (PredicatePlan::from_where_clause + apply_where_filter_zerocopy: where_kept; decision table: unit E-truthy), reverse_rows (Vec::reverse), first_is_desc (the first claimed column is DESC)',
     'the zero-copy references (Vec<&Row>, cloned at the end) are modelled as owned rows fetched once; schema / effective_name construction dropped; FromResult reduced to rows / sorted_by / where_filtered with its three constructors re-stated (verified against their bodies in select/join/mod.rs by reading)',
-    'SqlValue, Expression, ExecutorError, Str, Row (is_null_at: the value at a column is NULL or missing), CombinedSchema, PredicatePlan, Database, Table, TableSchema (get_column_index) opaque; IndexMetadata / IndexColumn reduced; any_direction_differs / any_null_at / dir_is_desc = the iter().any closures and the == Desc test of index_order_is_requested_order; schema_of = &table.schema; R10 rewrite of its `for (column_name, _) in cols`',
+    'SqlValue, Expression, ExecutorError, Str, Row (is_null_at: the value at a column is NULL or missing), CombinedSchema, PredicatePlan, Database, Table, TableSchema (get_column_index) opaque; IndexMetadata / IndexColumn reduced; any_direction_differs / any_null_at / null_at (the same NULL-or-missing test on one row, recognised if present) / dir_is_desc = the iter().any closures and the == Desc test of index_order_is_requested_order; schema_of = &table.schema; R10 rewrite of its `for (column_name, _) in cols`',
     'order_ok is the specification of "index order equals ORDER BY order": ORDER BY puts NULLs last in both directions (select/order.rs, unit S-orderby) while the index has NULL as its smallest key',
 ]
